@@ -175,6 +175,9 @@ Proof.
     unfold wake_by. destruct (Nat.eqb _ va); proj; now apply dequeue_hd.
 Qed.
 
+Lemma wb_lk s va y z : lk (th (wake_by s va y) z) = lk (th s z).
+Proof. pose proof (so_ctl _ _ z (so_wake_by s va y)) as E. unfold ctl in E. now inversion E. Qed.
+
 Ltac ng_frame G := eapply NGo_frame; [|exact G]; ns_peel.
 Ltac nohold := let x := fresh in let H := fresh in intros x H; destruct H.
 Ltac nogo := intros; discriminate.
@@ -284,9 +287,12 @@ Proof.
     intros y Hy. simpl in Hy. subst. rewrite th_updT_same. reflexivity.
   - (* PNfLocked: re-check *)
     assert (Hl : lk (th s x) = Some t) by (apply L0; [discriminate|rewrite P; simpl; auto]).
-    destruct (wqs s (WCv c)) as [|h q] eqn:Eq; [|destruct (Nat.eqb_spec h x)]; inversion H; subst;
-      (apply NGo_set_pc; [auto| |]); try nogo; try (intros y Hy; simpl in Hy; subst; auto).
-    intros c0 x0 all0 n0 E. inversion E; subst. rewrite Eq. reflexivity.
+    destruct (wqs s (WCv c)) as [|h q] eqn:Eq; [|destruct (Nat.eqb_spec h x)]; inversion H; subst.
+    + apply NGo_set_pc; [auto| |nogo]. intros y Hy; simpl in Hy; subst; exact Hl.
+    + apply NGo_set_pc; [auto| |].
+      * intros y Hy; simpl in Hy; subst; exact Hl.
+      * intros c0 x0 all0 n0 E. inversion E; subst. rewrite Eq. reflexivity.
+    + apply NGo_set_pc; [auto| |nogo]. intros y Hy; simpl in Hy; subst; exact Hl.
   - (* PNfBackoff *)
     assert (Hl : lk (th s x) = Some t) by (apply L0; [discriminate|rewrite P; simpl; auto]).
     inversion H; subst. apply NGo_set_pc; [apply NGo_unlock; auto|nohold|nogo].
@@ -296,8 +302,7 @@ Proof.
     + apply NGo_set_pc; [| |nogo].
       * apply NGo_wake; [ng_frame G|]. right. exists t. split; auto. rewrite th_updT_same. simpl. exact Hl.
       * intros y Hy. simpl in Hy. subst.
-        pose proof (so_ctl _ _ y (so_wake_by (updT s y (fun y0 => t_wk (t_err y0 (-1)) (WNotified t))) v y)) as E.
-        unfold ctl in E. inversion E. rewrite H3. rewrite th_updT_same. simpl. exact Hl.
+        rewrite wb_lk, th_updT_same. simpl. exact Hl.
     + apply NGo_set_pc; [ng_frame G| |nogo]. intros y Hy. simpl in Hy. subst. exact Hl.
   - (* PNfUnlock *)
     assert (Hl : lk (th s x) = Some t) by (apply L0; [discriminate|rewrite P; simpl; auto]).
@@ -312,8 +317,7 @@ Proof.
     + apply NGo_set_pc; [| |nogo].
       * apply NGo_wake; [ng_frame G|]. right. exists t. split; auto. rewrite th_updT_same. simpl. exact Hl.
       * intros y Hy. simpl in Hy. subst.
-        pose proof (so_ctl _ _ y (so_wake_by (updT s y (fun y0 => t_wk (t_err y0 e) WInterrupted)) v y)) as E.
-        unfold ctl in E. inversion E. rewrite H3. rewrite th_updT_same. simpl. exact Hl.
+        rewrite wb_lk, th_updT_same. simpl. exact Hl.
     + apply NGo_set_pc; [auto| |nogo]. intros y Hy. simpl in Hy. subst. exact Hl.
   - assert (Hl : lk (th s k) = Some t) by (apply L0; [discriminate|rewrite P; simpl; auto]).
     destruct o; inversion H; subst.
@@ -321,4 +325,138 @@ Proof.
     + apply NGo_finish. apply NGo_unlock; auto.
   - destruct (tstate_eqb _ READY && (err (th s k) =? 0)); inversion H; subst; [apply NGo_set_pc; [auto|nohold|nogo]|now apply NGo_finish].
   - inversion H; subst. apply NGo_finish. ng_frame G.
+Qed.
+
+Lemma NGo_dequeue s o y ns :
+  NGo s o -> (lk (th s y) = None \/ exists t, o = Some t /\ lk (th s y) = Some t) -> NGo (dequeue s y ns) o.
+Proof.
+  intros [L G] Hy.
+  assert (F : forall z, tpc (th (dequeue s y ns) z) = tpc (th s z) /\ lk (th (dequeue s y ns) z) = lk (th s z)).
+  { intros z. pose proof (so_ctl _ _ z (so_dequeue s y ns)) as E. unfold ctl in E. inversion E. auto. }
+  split.
+  - intros N x Ho H. destruct (F N) as [E _]. rewrite E in H. destruct (F x) as [_ ->]. eauto.
+  - intros N c x all n Ho H. destruct (F N) as [E _]. rewrite E in H.
+    pose proof (G _ _ _ _ _ Ho H) as Hh.
+    assert (Hl : lk (th s x) = Some N) by (apply L; auto; rewrite H; simpl; auto).
+    assert (x <> y).
+    { intros ->. destruct Hy as [Hy|(t & -> & Hy)]; congruence. }
+    now apply dequeue_hd.
+Qed.
+
+Lemma ns_idle_decide s v cnt : ng_same s (idle_decide s v cnt).
+Proof. unfold idle_decide. destruct (_ || _); ns_peel. Qed.
+
+Lemma NG_idler_step s v s' : NG s -> idler_step s v = Some s' -> NG s'.
+Proof.
+  intros G H. unfold idler_step in H. destruct (vipc (vc s v)).
+  - destruct (eject (updV s v (fun y => v_sbq y [])) v (sbq (vc s v)) 0) as [s1 cnt] eqn:Ej. inversion H; subst.
+    eapply NGo_frame; [|exact G]. eapply ns_trans; [|apply ns_updV].
+    change s1 with (fst (s1, cnt)). rewrite <- Ej. eapply ns_trans; [|apply ns_eject]. apply ns_updV.
+  - destruct (front (slq (vc s v))) as [x|]; [|inversion H; subst; eapply NGo_frame; [apply ns_idle_decide|exact G]].
+    destruct (now s <? ts (th s x)); [inversion H; subst; eapply NGo_frame; [apply ns_idle_decide|exact G]|].
+    destruct (lk (th s x)) eqn:El; [discriminate|].
+    match type of H with context [tstate_eqb ?a SLEEPING] => destruct (tstate_eqb a SLEEPING) end; inversion H; subst.
+    + eapply NGo_frame; [eapply ns_trans; [eapply ns_trans; [apply ns_updT with (f := fun y => t_wk y WTimeout); intros r; auto|apply ns_updV]|apply ns_updV]|].
+      apply NGo_dequeue; [eapply NGo_frame; [apply ns_updV|exact G]|]. left. exact El.
+    + eapply NGo_frame; [apply ns_updV|exact G].
+  - inversion H; subst. eapply NGo_frame; [apply ns_updV|exact G].
+Qed.
+
+Lemma NG_vstep s v s' : NG s -> vstep s v = Some s' -> NG s'.
+Proof.
+  intros G H. unfold vstep in H. destruct (pend (vc s v)) as [[w l]|].
+  - destruct (do_unlock s v l) eqn:U; [|discriminate]. inversion H; subst.
+    eapply NGo_frame; [eapply ns_trans; [apply ns_set_held|apply ns_updV]|]. eapply NGo_do_unlock; eauto.
+  - destruct (runq (vc s v)) as [|[t|] r]; [discriminate| |].
+    + eapply NG_thread_step; eauto.
+    + eapply NG_idler_step; eauto.
+Qed.
+
+Theorem NG_reachable nv kinds home progs s : Reach nv kinds home progs s -> NG s.
+Proof.
+  induction 1 as [|s a s' R IH H].
+  - split.
+    + intros N x _ H. simpl in H. destruct (Nat.ltb N nv); destruct H.
+    + intros N c x all n _ H. simpl in H. destruct (Nat.ltb N nv); discriminate.
+  - destruct a; simpl in H.
+    + eapply NG_vstep; eauto.
+    + inversion H; subst. eapply NGo_frame; [apply ns_now|exact IH].
+Qed.
+
+(* ---- property theorems ------------------------------------------------------------------------ *)
+
+(* a thread past ScopedLockHead / inside thread_interrupt's locked section holds that thread.lock:
+   time-out expiry (needs the lock free), other notifiers and interrupters are excluded meanwhile *)
+Theorem head_lock_held nv kinds home progs s N x :
+  Reach nv kinds home progs s -> holds (tpc (th s N)) x -> lk (th s x) = Some N.
+Proof. intros R H. destruct (NG_reachable _ _ _ _ _ R) as [L _]. apply L; auto. discriminate. Qed.
+
+(* notify_one_exact, linearisation point: when the notifier executes prelocked_thread_interrupt(x) the
+   thread x is (still) the head of the queue, SLEEPING, pointing at this queue, and locked by the notifier.
+   In particular "time-out expiry vs notify_one picking the same head" has exactly one winner: had the
+   timer dequeued x first, the re-check would have failed and the notifier would not be at PNfGo. *)
+Theorem notify_go_head nv kinds home progs s N c x all n :
+  Reach nv kinds home progs s -> tpc (th s N) = PNfGo c x all n ->
+  hd_error (wqs s (WCv c)) = Some x /\ lk (th s x) = Some N /\ st (th s x) = SLEEPING /\
+  wqo (th s x) = Some (WCv c).
+Proof.
+  intros R H. destruct (NG_reachable _ _ _ _ _ R) as [L G]. pose proof (WF_reachable _ _ _ _ _ R) as W.
+  assert (Hh : hd_error (wqs s (WCv c)) = Some x) by (eapply G; eauto; discriminate).
+  assert (Hi : In x (wqs s (WCv c))) by (destruct (wqs s (WCv c)); inversion Hh; now left).
+  destruct (wf_wq s W _ _ Hi). repeat split; auto. apply L; [discriminate|]. rewrite H. simpl. auto.
+Qed.
+
+(* the Go step: exactly x leaves the queue, becomes READY (same vCPU) or STANDBY (other vCPU) with
+   error_number = -1 and ghost reason "notified by N"; every other thread keeps its state, queue,
+   error number; the model does not leave its domain (`bad` is not set by this step) *)
+Theorem notify_go_effect nv kinds home progs s v N c x all n s' r :
+  Reach nv kinds home progs s -> runq (vc s v) = Th N :: r -> pend (vc s v) = None ->
+  tpc (th s N) = PNfGo c x all n -> vstep s v = Some s' ->
+  bad s' = bad s /\
+  ~ In x (wqs s' (WCv c)) /\ (forall q y, In y (wqs s' q) <-> In y (wqs s q) /\ y <> x) /\
+  (st (th s' x) = READY \/ st (th s' x) = STANDBY) /\ err (th s' x) = -1 /\ wk (th s' x) = WNotified N /\
+  (forall y, y <> x -> st (th s' y) = st (th s y) /\ err (th s' y) = err (th s y) /\ wk (th s' y) = wk (th s y) /\
+                       wqo (th s' y) = wqo (th s y)) /\
+  tpc (th s' N) = PNfUnlock c x all n.
+Proof.
+  intros R E Pn P H. destruct (notify_go_head _ _ _ _ _ _ _ _ _ _ R P) as (Hh & Hl & Hs & Hq).
+  pose proof (WF_reachable _ _ _ _ _ R) as W.
+  unfold vstep in H. rewrite Pn, E in H. unfold thread_step in H. rewrite P in H.
+  rewrite Hs in H. simpl in H. inversion H; subst. clear H.
+  set (s1 := updT s x (fun y => t_wk (t_err y (-1)) (WNotified N))).
+  assert (W1 : WF s1) by (apply WF_updT; auto; apply keeps_wkerr).
+  assert (Nx : N <> x).
+  { intros ->. pose proof (wf_rq s W x v) as Hr. rewrite E in Hr. destruct (Hr (or_introl eq_refl)) as [[A|A] _]; congruence. }
+  assert (Fx : forall (A : Type) (f : thr -> A), (forall r0, f (t_pc r0 (PNfUnlock c x all n)) = f r0) -> forall y,
+             f (th (set_pc (wake_by s1 v x) N (PNfUnlock c x all n)) y) = f (th (wake_by s1 v x) y)).
+  { intros A f Hf y. unfold set_pc. rewrite th_updT. destruct (Nat.eqb_spec y N); subst; auto. }
+  assert (Dq : forall q y, In y (wqs (wake_by s1 v x) q) <-> In y (wqs s q) /\ y <> x).
+  { intros q y. rewrite wb_wqs; auto. subst s1. rewrite wqs_updT. tauto. }
+  assert (Ox : forall y, y <> x -> th (wake_by s1 v x) y = th s y).
+  { intros y Hy. unfold wake_by. destruct (Nat.eqb _ v); proj; rewrite dequeue_th_other; auto;
+      subst s1; rewrite th_updT_other; auto. }
+  pose proof (dequeue_x s1 x) as Dx.
+  assert (Xf : (st (th (wake_by s1 v x) x) = READY \/ st (th (wake_by s1 v x) x) = STANDBY) /\
+               err (th (wake_by s1 v x) x) = -1 /\ wk (th (wake_by s1 v x) x) = WNotified N).
+  { unfold wake_by. destruct (Nat.eqb _ v); proj.
+    - destruct (Dx READY) as (A & _ & _ & B & C & _). rewrite A, B, C. subst s1. rewrite th_updT_same. simpl. auto.
+    - destruct (Dx STANDBY) as (A & _ & _ & B & C & _). rewrite A, B, C. subst s1. rewrite th_updT_same. simpl. auto. }
+  destruct Xf as (X1 & X2 & X3).
+  split; [|split; [|split; [|split; [|split; [|split; [|split]]]]]].
+  - unfold set_pc. simpl. destruct (so_wake_by s1 v x) as (_ & _ & _ & _ & _ & B & _). rewrite B. reflexivity.
+  - unfold set_pc. rewrite wqs_updT. intros Hi. apply Dq in Hi. tauto.
+  - intros q y. unfold set_pc. rewrite wqs_updT. apply Dq.
+  - rewrite (Fx _ st) by reflexivity. exact X1.
+  - rewrite (Fx _ err) by reflexivity. exact X2.
+  - rewrite (Fx _ wk) by reflexivity. exact X3.
+  - intros y Hy. rewrite (Fx _ st), (Fx _ err), (Fx _ wk), (Fx _ wqo) by reflexivity. rewrite Ox; auto.
+  - unfold set_pc. rewrite th_updT_same. reflexivity.
+Qed.
+
+(* notify_one returns null / notify_all returns only when it READS an empty queue: the read step *)
+Theorem notify_returns_on_empty_only s t c all n :
+  wqs s (WCv c) <> [] -> tpc (th (notify_read s t c all n) t) <> PIdle.
+Proof.
+  intros Hne. unfold notify_read. destruct (wqs s (WCv c)) as [|x q]; [congruence|].
+  unfold set_pc. rewrite th_updT_same. simpl. discriminate.
 Qed.
